@@ -643,6 +643,9 @@ fn exec(
         }
         "load_text" => unit!(st.load_state(&s("text"))),
         "reset" => {
+            // (the step fuel is the harness's own device: a history that used it up must not make the reset fail, which
+            // runs the global declarations)
+            st.verif_set_step_fuel(default_fuel);
             let res = st.reset_state();
             if res.is_ok() {
                 if let Some(seed) = inst.seed {
